@@ -17,7 +17,7 @@ BUDGET = {"quick": (8, 200, 90), "thorough": (16, 5000, 600)}
 RULE = (
     "seeded ring-loop templates: body length 1-4, route or if/else gate, exit via END or an exit node, iteration count N in 0..6, open or closed "
     "gate, gate reading the loop state directly or synchronised on a signal emitted by the last body node (do-while), self-accumulating single-node "
-    "body, loop wrapped as a graph node inside a DAG; entry at EVERY entry point the graph lists; max_iterations swept over 1..S+1 where S is the "
+    "body, loop wrapped as a graph node inside a DAG; entry at EVERY entry point the graph lists; max_iterations swept over 0..S+1 where S is the "
     "number of steps of the unbounded run; both runners, async under delays/ties/hold-open. Oracle: the equivalent sequential while/do-while "
     "program. Non-trivial = the loop ran >=2 iterations or max_iterations cut it short; distinct = digest of (template parameters, entry, schedule)."
     ' Gate kinds now include multi-target route gates; the late-signal template (signal emitted by a separate node one step after the state change) is included.'
@@ -235,7 +235,7 @@ def run_case(doc: dict) -> dict:
             # bounded liveness: never more than max_iterations steps; cut-off reports the values so far
             emits = {e for nd in blk["nodes"] for e in nd.get("emit", [])}
             outs = {o for nd in blk["nodes"] for o in nd.get("outs", [])} - emits
-            for m in range(1, S + 2):
+            for m in range(0, S + 2):
                 mode = "sync" if m % 2 else "async"
                 wm = run_world(g, vals, mode=mode, cfg=doc["async"][0] if mode == "async" else None, run_kwargs=dict(kw, max_iterations=m, error_handling="continue"))
                 rts.append(wm["rt"])
@@ -246,6 +246,11 @@ def run_case(doc: dict) -> dict:
                 tag = f"{mode}[{ename}]max_iterations={m}"
                 if n_steps > m:
                     viol.append((f"{tag}:more_steps_than_max_iterations", {"steps": n_steps, "m": m, "blk": _p(blk)}))
+                if m == 0:
+                    # a budget of zero steps: nothing may execute (InfiniteLoopError at once, or the value is rejected)
+                    if S >= 1 and not ((om["status"] == "failed" and om["error"] and om["error"][0] == "InfiniteLoopError") or (om["status"] == "raised" and om["error"] and om["error"][0] in ("ValueError", "InfiniteLoopError"))):
+                        viol.append((f"{tag}:zero_step_budget_not_enforced", {"status": om["status"], "error": om["error"], "steps": n_steps}))
+                    continue
                 if m >= S:
                     if om["status"] != "completed" or canon(om["values"]) != canon(ws["out"]["values"]):
                         viol.append((f"{tag}:bounded_run_differs_from_unbounded", {"status": om["status"], "error": om["error"], "S": S, "blk": _p(blk)}))
@@ -338,7 +343,7 @@ def signature(doc: dict, cls: str, detail) -> str:
 def sample_repr(doc: dict, res: dict):
     if doc.get("kind") == "chat":
         return {"template": "chat loop: two ungated accumulators of one value, tick, gate cont", "limit": doc["limit"], "node_order": doc["order"]}
-    return {"template": _p(doc["blk"]), "nested_in_dag": doc.get("nested"), "node_order": doc["order"], "entries": "every body entry point listed by graph.inputs.entrypoints", "max_iterations": "1..S+1",
+    return {"template": _p(doc["blk"]), "nested_in_dag": doc.get("nested"), "node_order": doc["order"], "entries": "every body entry point listed by graph.inputs.entrypoints", "max_iterations": "0..S+1",
             "schedules": [{"mode": a["schedule"]["mode"], "k": a["max_concurrency"]} for a in doc["async"]]}
 
 
